@@ -193,7 +193,7 @@ def generator_support_suite(chk, w, rule, maxlen, orders=(0, 1, 2, 3), ns=None, 
                          "BSplineGenerator(knots, grid)") if g2.kind == "val" else None
             idx = {v_: i for i, v_ in enumerate(distinct)}
             for p in orders:
-                if L < p + 2:
+                if L < p + 1:   # m = p+1 knots: an empty basis, not a refusal
                     continue
                 fg = w.method(GEN, "generateBSplines", 0, pred=lambda d, p=p: ("Spline<%s, %d>" % (w.T, p)) in
                               d["rtype"], required=False)
